@@ -68,6 +68,7 @@ namespace embedded_pairing::bls12_381 {
             int i = 0;
             int16_t u;
             while (!c.is_zero()) {
+                bool overflow = false;
                 if (c.is_odd()) {
                     u = (int16_t) (c.bytes[0] & ((1 << (window + 1)) - 1));
 
@@ -81,6 +82,12 @@ namespace embedded_pairing::bls12_381 {
                     } else {
                         a.bytes[0] = (uint8_t) (-u);
                         c.add(c, a);
+                        /*
+                         * For scalars near the top of the range, the sum is
+                         * 2^bits and wraps around; the lost bit is put back
+                         * after the shift below.
+                         */
+                        overflow = (BigInt<bits>::compare(c, a) == -1);
                     }
                 } else {
                     u = 0;
@@ -88,6 +95,9 @@ namespace embedded_pairing::bls12_381 {
 
                 wnaf[i++] = (int8_t) u;
                 c.template shift_right_in_word<1>(c);
+                if (overflow) {
+                    c.bytes[BigInt<bits>::byte_length - 1] |= 0x80;
+                }
             }
             wnaf_size = i;
         }
